@@ -54,6 +54,33 @@ def decode(data, plugins=False, every=True):
                 events=st.ev, stdout=so, stderr=se)
 
 
+def decode_cli(data, plugins=False):
+    """the same decode through the real command line (`peltool -f <file> -E [-P]`, in-process): what the OPTIONS
+    do is part of what is observed.  Same result shape as decode(), without cursor events."""
+    import os
+    from . import seams
+    path = os.path.join(seams.scratch_dir('pelrun'), 'one.pel')
+    seams.write_file(path, bytes(data))
+    res = seams.run_cli(['-f', path, '-E'] + ([] if plugins else ['-P']))
+    os.remove(path)
+    outcome, doc, detail = 'error', None, ''
+    if res['uncaught']:
+        detail = res['uncaught'].strip().splitlines()[-1]
+    else:
+        text = res['out'] or ''
+        if text.strip():
+            try:
+                doc = json.loads(text)
+                outcome = 'doc'
+            except ValueError as e:
+                detail = 'stdout is not JSON: %s' % e
+        else:
+            outcome = 'empty' if res['exit'] == 0 and not (res['err'] or '').strip() else 'error'
+            detail = (res['err'] or '').strip().splitlines()[-1] if (res['err'] or '').strip() else ''
+    return dict(outcome=outcome, doc=doc, detail=detail[:300], final_index=-1, boundaries=[], events=[],
+                stdout=res['out'] or '', stderr=res['err'] or '')
+
+
 KIND_PROJ = {'SRC': project.src, 'EH': project.eh, 'MT': project.mt, 'LP': project.lp}
 
 
